@@ -21,13 +21,30 @@ func Spec_omitCriteria(
 	listener *model.BiasListener,
 ) (*model.DecisionMakingParams, *model.Criteria) {
 	omissionPartition := parsedProps.Spec_SplitCriteriaByOrdering(omissionOrderCriteria)
-	resultMethodParameters := (*listener).OnCriteriaRemoved(omissionPartition.Right, current.MethodParameters)
-	consideredAlternatives := model.Spec_PreserveCriteriaForAlternatives(&current.ConsideredAlternatives, omissionPartition.Right)
-	notConsideredAlternatives := model.Spec_PreserveCriteriaForAlternatives(&current.NotConsideredAlternatives, omissionPartition.Right)
+	// C15: the ordering decides which criteria are omitted; the kept ones are handed on in the order they had before, so
+	// that the decision equals the one for the request with the omitted criteria deleted
+	keptCriteria := Spec_inOrderOf(&current.Criteria, omissionPartition.Right)
+	resultMethodParameters := (*listener).OnCriteriaRemoved(keptCriteria, current.MethodParameters)
+	consideredAlternatives := model.Spec_PreserveCriteriaForAlternatives(&current.ConsideredAlternatives, keptCriteria)
+	notConsideredAlternatives := model.Spec_PreserveCriteriaForAlternatives(&current.NotConsideredAlternatives, keptCriteria)
 	return &model.DecisionMakingParams{
 		NotConsideredAlternatives: *notConsideredAlternatives,
 		ConsideredAlternatives:    *consideredAlternatives,
-		Criteria:                  *omissionPartition.Right,
+		Criteria:                  *keptCriteria,
 		MethodParameters:          resultMethodParameters,
 	}, omissionPartition.Left
+}
+
+func Spec_inOrderOf(ordered, selected *model.Criteria) *model.Criteria {
+	isSelected := make(map[string]bool, len(*selected))
+	for _, c := range *selected {
+		isSelected[c.Id] = true
+	}
+	result := make(model.Criteria, 0, len(*selected))
+	for _, c := range *ordered {
+		if isSelected[c.Id] {
+			result = append(result, c)
+		}
+	}
+	return &result
 }
